@@ -30,6 +30,24 @@ CLAIMS = {
              'correspondence against the real decoders). partial: text invariance relies on the decoder model of C07/C09',
         technique='Coq proof (projection lemma over the pairing spec + keyed-state machine) + differential correspondence',
         ref='DESIGN.md §5 C05'),
+    'C15': dict(
+        text='Coq theorems c15_sorted/first_wins/order_independent/attribution/attribution_none/feed/frames/frames_iff: for '
+             'ALL announcement sequences and samples the image table is strictly sorted, equals the first-occurrence map '
+             '(hence is order-independent for distinct images), each frame goes to the greatest earlier-announced load '
+             'address <= frame with offset frame-address, and frames are the first N words of the data records; closed under '
+             'the global context. Tied to the code by a correspondence through the real decoders and CallstacksParser.',
+        note='trusted: Coq kernel+vm_compute; hand models Callstacks.v/Composite.v (parallel lists as list of pairs; bisect on '
+             'sorted list = count of elements <= x) validated against the code each run; recogniser constants regenerated',
+        technique='Coq proof (sorted-table invariant, extensionality of sorted maps) + differential correspondence',
+        ref='DESIGN.md §5 C15'),
+    'C20': dict(
+        text='Coq theorems c20_vmfault_result/pidprot, c20_launch_perm/sorted/stable, c20_perf_th_info/perf_cs over ALL windows '
+             '(any number/order of nested records, any flag word); closed under the global context. Hand model of the three '
+             'composite decoders tied to the code by a correspondence through the real decoders and by regenerated constants.',
+        note='trusted: Coq kernel+vm_compute; hand model Composite.v validated against perf.handle_event, '
+             'dyld.handle_timing_launch_executable, mach.handle_mach_vmfault each run; flag-name rendering is C11',
+        technique='Coq proof (list/permutation reasoning over windows) + differential correspondence',
+        ref='DESIGN.md §5 C20'),
     'C12': dict(
         text='Coq theorems c12_events/sat_meaning/logs/no_logs_in_events/no_events_in_logs: for EVERY stream and EVERY '
              'configuration the filtered listings equal `filter` of the unfiltered listing by the stated predicate (order and '
